@@ -13,6 +13,10 @@ pub use crate::event::Which as Read;
 /// point.
 #[inline]
 pub fn read(which: Which) -> Option<u64> {
+    // The end read closes the thread's timed-section window before anything
+    // else happens; the start read opens it as its very last action.
+    let foreign = if which == Which::End { crate::window::close() } else { (0, 0) };
+    let scope = crate::window::Scope::enter();
     let (s, me) = sim::ctx()?;
     {
         // While `Timer::precision()` measures, only the measuring thread is
@@ -22,7 +26,25 @@ pub fn read(which: Which) -> Option<u64> {
             return Some(st.read_clock(me, which));
         }
     }
-    Some(s.op(me, |st| Step::Done(st.read_clock(me, which))))
+    let raw = s.op(me, |st| {
+        let raw = st.read_clock(me, which);
+        if foreign.0 > 0 {
+            st.log(
+                me,
+                Ev::User(crate::event::UserEv::Mark {
+                    tag: crate::window::FOREIGN_ALLOC_TAG,
+                    a: foreign.0 as u64,
+                    b: foreign.1,
+                }),
+            );
+        }
+        Step::Done(raw)
+    });
+    drop(scope);
+    if which == Which::Start {
+        crate::window::open();
+    }
+    Some(raw)
 }
 
 #[inline]
